@@ -259,3 +259,8 @@ Print Assumptions C08_nothing_invented.
 Print Assumptions C08_head_is_oldest.
 Print Assumptions C08_cover_test_decides.
 Print Assumptions C08_spec_sound.
+Print Assumptions C08_snapshot_replica_inhabited.
+Print Assumptions C08_mono_hist_inhabited.
+Print Assumptions C08_lowering_update_invents_cover.
+Print Assumptions C08_completion_removes_every_request_ending_at_to.
+Print Assumptions C08_step_hypotheses_inhabited.
